@@ -42,6 +42,19 @@ class Gen(object):
     def value(self, kind):
         r = self.rng
         k = kind[0]
+        if getattr(self, "ones", False) and r.random() < 0.6:
+            # values whose codes are (or end in) 1-bits: they may lie past the end of a bounded block
+            if k == "bool":
+                return ("b", True)
+            if k == "nbits":
+                return ("i", (1 << kind[1]) - 1)
+            if k == "ulit":
+                return ("i", (1 << (8 * kind[1])) - 1)
+            if k in ("barr", "bytes"):
+                return ("x", [True] * (kind[1] * (8 if k == "bytes" else 1)))
+            if k == "uint":
+                return ("i", r.choice([0, 0, 2, 6, 14]))
+            return ("i", r.choice([0, 0, -2, -6, 2]))
         if k == "bool":
             return ("b", r.random() < 0.5)
         if k == "nbits":
@@ -85,12 +98,15 @@ class Gen(object):
                 stmts.append(("slist", t, bodies))
                 ctx[t] = ("l", vals)
             elif c < 0.92 and not in_block:
+                self.ones = self.rng.random() < 0.5
                 b, cx = self.body(depth + 1, in_block=True, in_block_body=True)
+                self.ones = False
                 # no nested blocks / aligns / sub-structures with aligns inside: position arithmetic only
                 stmts.append(("block", t, None, b))
                 ctx.update(cx)
                 ctx[t] = ("pad", None)
-            elif c < 0.97:
+            elif c < 0.97 and not in_block:
+                # (no byte_align inside a bounded block: not in the model, and not used by bitstream/vc2.py)
                 stmts.append(("align", t))
                 ctx[t] = ("al", None)
             else:
@@ -288,15 +304,64 @@ def sizes(stmts, ctx, pos):
                 pos = sizes(b, c[1], pos)
         elif op == "block":
             end = sizes(s[3], ctx, pos)
-            pad = ctx["__rng"].randrange(0, 11)
-            stmts[i] = ("block", t, end - pos + pad, s[3])
-            ctx[t] = ("x", [ctx["__rng"].random() < 0.5 for _ in range(pad)])
-            pos = end + pad
+            rng = ctx["__rng"]
+            body_bits = enc_body(s[3], ctx)
+            ones = 0
+            while ones < len(body_bits) and body_bits[len(body_bits) - 1 - ones]:
+                ones += 1
+            if ones and rng.random() < 0.5:
+                # the block ends BEFORE its contents do: the last `cut` bits (all 1) lie past the end
+                cut = rng.randrange(1, ones + 1)
+                stmts[i] = ("block", t, len(body_bits) - cut, s[3])
+                ctx[t] = ("x", [])
+                pos = pos + len(body_bits) - cut
+            else:
+                pad = rng.randrange(0, 11)
+                stmts[i] = ("block", t, end - pos + pad, s[3])
+                ctx[t] = ("x", [rng.random() < 0.5 for _ in range(pad)])
+                pos = end + pad
         elif op == "align":
             n = (8 - pos % 8) % 8
             ctx[t] = ("x", [ctx["__rng"].random() < 0.5 for _ in range(n)])
             pos += n
     return pos
+
+
+def enc_prim(k, v):
+    """the bits of one primitive value (for choosing where a block may end)"""
+    x = v[1]
+    if k[0] == "bool":
+        return [bool(x)]
+    if k[0] in ("nbits", "ulit"):
+        n = k[1] * (8 if k[0] == "ulit" else 1)
+        return [bool((x >> (n - 1 - i)) & 1) for i in range(n)]
+    if k[0] in ("barr", "bytes"):
+        return list(x)
+    m = abs(x) + 1
+    out = []
+    for i in range(m.bit_length() - 2, -1, -1):
+        out += [False, bool((m >> i) & 1)]
+    out.append(True)
+    if k[0] == "sint" and x != 0:
+        out.append(x < 0)
+    return out
+
+
+def enc_body(stmts, ctx):
+    out = []
+    for s in stmts:
+        op, t = s[0], s[1]
+        if op == "prim":
+            out += enc_prim(s[2], ctx[t])
+        elif op == "plist":
+            for k, v in zip(s[2], ctx[t][1]):
+                out += enc_prim(k, v)
+        elif op == "sub":
+            out += enc_body(s[2], ctx[t][1])
+        elif op == "slist":
+            for b, c in zip(s[2], ctx[t][1]):
+                out += enc_body(b, c[1])
+    return out
 
 
 def exp_len(v):
@@ -436,13 +501,13 @@ class Prop(object):
     lean_modules = ["VC2.Props.C21"]
     status = "partial"
     rule = ("random description programs (depth <= 4, up to ~40 statements: all seven primitive kinds with several widths, list targets, nested sub-descriptions, "
-            "lists of sub-descriptions, bounded blocks with 0-10 bits of trailing padding, byte alignment, computed values) with exactly matching random descriptions, "
+            "lists of sub-descriptions, bounded blocks with 0-10 bits of trailing padding OR ending inside their contents (the bits past the end being 1s), byte alignment, computed values) with exactly matching random descriptions, "
             "interpreted on the REAL Serialiser (BitstreamWriter) and the REAL Deserialiser (BitstreamReader): written bits and resulting description compared with the model "
             "in both directions; plus corrupted descriptions (extra value, missing value, wrong list length, extra nested value) where both must fail")
     trusted = ["hand-written model lean/VC2/Model/Serdes.lean (+ SerdesCodec.lean over the C20 bit model) tied to the code by the sd correspondence",
                "bitarray, BytesIO"]
     assumptions = ["bit arrays and byte strings have exactly the requested length (shorter values are zero-padded by the real writer, by documented design)",
-                   "bounded-block bodies fit inside their block (overrun - 1s past the end - is C20/C08 material and not in this model)",
+                   "byte_align inside a bounded block and nested bounded blocks are refused by the model (the real framework refuses nesting too; bitstream/vc2.py uses neither)",
                    "no default_values table (missing value = error); set_context_type is represented by a computed `__type__` entry"]
 
     def correspond(self, ctx):
